@@ -307,12 +307,41 @@ def status_array_shape(ctx, rule='A5s'):
            'undecided nodes are those with status INITIAL', short(mask[0]) if mask else 'missing')
 
 
+def loop_closure_every_level(ctx, rule='A5'):
+    """get_confirmed_edges_for_node walks derivation cycles recursively; nodes that closed a cycle get the edge set
+    of the node they hit (`_traversed[tgt].update(_traversed[src])`).  With nested cycles an inner node has to be
+    brought up to date when its own recursion level returns, because the outer levels copy from it afterwards: the
+    update is therefore not restricted to the level of the originally requested node."""
+    fn = ctx.fn(f'{TRAV}:get_confirmed_edges_for_node')
+    cfg = build_cfg(fn)
+    flag = [norm(s_.targets[0]) for s_ in walk_fn(fn) if isinstance(s_, ast.Assign) and
+            isinstance(s_.value, ast.Constant) and s_.value.value is True and isinstance(s_.targets[0], ast.Name)]
+    ups = guards.call_nodes(cfg, 'update', pred=lambda c: isinstance(c.func.value, ast.Subscript) and
+                            c.args and isinstance(c.args[0], ast.Subscript) and
+                            norm(c.func.value.value) == norm(c.args[0].value))
+    if not ups or not flag:
+        raise AnalysisError('get_confirmed_edges_for_node: loop-closure update / request-start flag not found')
+    start_only = cfg.edges_implying(lambda a, t: t is True and isinstance(a, ast.Name) and a.id in flag)
+    reach = cfg.reachable([cfg.entry], blocked_edges=start_only, labels_excluded=('exc',))
+    ok = all(u.id in reach for u in ups)
+    ctx.ob(rule, fkey(fn, rule, 'loop-closure-at-every-level'), ok, f'{fn.module.relpath}:{ups[0].lineno}',
+           'the edge sets of nodes that closed a derivation cycle are completed at every recursion level, not only '
+           'when the walk is back at the requested node',
+           'reachable without the request-start test' if ok else
+           f'`{short(ups[0].ast, 60)}` runs only under `{flag[0]}`: with nested cycles the inner nodes are copied from '
+           f'before they are complete')
+
+
 def check(ctx):
     edges.check_walks(ctx, categories={'derivation', 'default'}, anchors=ANCHORS)
     apply_selection_shape(ctx)
     resolve_single_shape(ctx)
     derive_shape(ctx)
     status_array_shape(ctx)
+    loop_closure_every_level(ctx)
+    # the graph algorithms memoise in caller-provided cache dictionaries: keys cover what the value depends on
+    from ..rules import persist as _psg
+    _psg.check_memo_functions(ctx, [f for f in ctx.prog.all_functions() if f.module.name.startswith('adsg_core.graph.')])
     guards.check_applied_unless_empty(ctx, [f for f in ctx.prog.all_functions() if f.module.name.startswith('adsg_core.graph.')])
     guards.check_accumulators_threaded(ctx, [f for f in ctx.prog.all_functions() if f.module.name.startswith('adsg_core.graph.')])
     # the influence matrix (choice activation order) is derived from the graph and its start nodes: it is rebuilt
